@@ -31,7 +31,32 @@ var (
 	// sqlQueryHook is called before every read statement reaches SQLite (no statement of the calling connection is
 	// active at that moment): the place where "something else happens between two reads of one request".
 	sqlQueryHook func(query string)
+	// sqlRowsClosedHook is called after the result of a read statement has been consumed and closed (the statement is
+	// finished, the connection holds no SQLite lock) and before database/sql hands the result to its caller: the
+	// place where "the caller has read, and is slow to act on what it read". Only consulted while non-nil.
+	sqlRowsClosedHook func(query string)
 )
+
+// simRows reports the end of a result set (only installed while sqlRowsClosedHook is set).
+type simRows struct {
+	driver.Rows
+	q string
+}
+
+func (r *simRows) Close() error {
+	err := r.Rows.Close()
+	if h := sqlRowsClosedHook; h != nil {
+		h(r.q)
+	}
+	return err
+}
+
+func wrapRows(rows driver.Rows, err error, q string) (driver.Rows, error) {
+	if err != nil || sqlRowsClosedHook == nil {
+		return rows, err
+	}
+	return &simRows{Rows: rows, q: q}, nil
+}
 
 type simDriver struct{ base driver.Driver }
 
@@ -93,7 +118,8 @@ func (c *simSQLConn) QueryContext(ctx context.Context, query string, args []driv
 			return nil, err // a read that fails (SQLITE_BUSY while another connection holds the write lock, I/O error)
 		}
 	}
-	return c.Conn.(driver.QueryerContext).QueryContext(ctx, query, args)
+	rows, err := c.Conn.(driver.QueryerContext).QueryContext(ctx, query, args)
+	return wrapRows(rows, err, query)
 }
 
 func (c *simSQLConn) PrepareContext(ctx context.Context, query string) (driver.Stmt, error) {
@@ -155,7 +181,8 @@ func (s *simSQLStmt) QueryContext(ctx context.Context, args []driver.NamedValue)
 			return nil, err
 		}
 	}
-	return s.Stmt.(driver.StmtQueryContext).QueryContext(ctx, args)
+	rows, err := s.Stmt.(driver.StmtQueryContext).QueryContext(ctx, args)
+	return wrapRows(rows, err, s.q)
 }
 
 type simSQLTx struct{ driver.Tx }
